@@ -4,6 +4,7 @@ import (
 	"fmt"
 	"os"
 	"strconv"
+	_ "time/tzdata" // C14 runs child processes in other time zones: do not depend on the host's zoneinfo
 
 	_ "verif/checks"
 	"verif/internal/core"
